@@ -403,6 +403,15 @@ class CombinedAnalysis(Analysis):
         -------
         An overarching analysis
         """
+        from .free_parameter import FreeParameterAnalysis
+
+        if isinstance(other, FreeParameterAnalysis):
+            # every other order (free + x, x + free, free + combined) already raises a TypeError;
+            # absorbing the members here would silently drop the free parameters
+            raise TypeError(
+                "A FreeParameterAnalysis cannot be added to another analysis. "
+                "Sum the analyses first, then call with_free_parameters."
+            )
         if isinstance(other, CombinedAnalysis):
             return type(self)(*self.analyses, *other.analyses)
         return type(self)(*self.analyses, other)
